@@ -661,15 +661,12 @@ func main() {
 			if len(p) == 0 || p[0].Op != "init" {
 				tr.Fatal("plan %s does not start with init", f)
 			}
-			// a plan is a schedule of external actions; it is applied to every kind of executor in
-			// turn (steps that do not apply are skipped), lanes as generated when it was an mline plan
+			// a plan is a schedule of external actions; it is applied to every kind of executor and
+			// every lane count in turn (steps that do not apply are skipped)
 			kind := []string{"line", "mline", "runq", "pchan"}[i%4]
 			nl := 1
 			if kind == "mline" {
-				nl = p[0].Nl
-				if nl < 2 {
-					nl = lanesL[(i/4)%len(lanesL)]
-				}
+				nl = lanesL[(i/4)%len(lanesL)]
 			}
 			runPlan(w, "plan:"+filepath.Base(f), kind, nl, p[0].Qsize, true, p[1:])
 		}
